@@ -333,6 +333,9 @@ func c03run(idx int) run.Result {
 
 	// ---- other chunkings: same bytes out, rule 1 at every would-block ----
 	hows := []string{chWhole, chByte, chRandom, chRandom}
+	// what io.Reader permits and some transports do: the last bytes and the end of the stream reported by ONE read
+	// (crypto/tls up to 1.2 when the close_notify has arrived with the data), and reads that return (0, nil)
+	hows = append(hows, chWhole+"+eof-with-last-read", chRandom+"+eof-with-last-read", chRandom+"+empty-reads")
 	if len(stream) <= 160 {
 		for o := 1; o < len(stream); o++ {
 			hows = append(hows, fmt.Sprintf("split@%d", o))
@@ -350,8 +353,15 @@ func c03run(idx int) run.Result {
 	for _, how := range hows {
 		rec2 := double.NewRec()
 		rec2.Script = c03script(idx, pc)
-		chunks := makeChunks(stream, ends, how, r)
 		script := sconn.Script{End: sconn.EOF}
+		base := how
+		if strings.HasSuffix(how, "+eof-with-last-read") {
+			base, script.EOFWithData = strings.TrimSuffix(how, "+eof-with-last-read"), true
+		}
+		if strings.HasSuffix(how, "+empty-reads") {
+			base, script.EmptyReads = strings.TrimSuffix(how, "+empty-reads"), true
+		}
+		chunks := makeChunks(stream, ends, base, r)
 		if strings.HasPrefix(how, "idle-before-request@") {
 			var k int
 			fmt.Sscanf(how, "idle-before-request@%d", &k)
@@ -447,7 +457,7 @@ func init() {
 	run.Register(&run.Prop{
 		ID: "C03", Level: "exploration",
 		Rule: func(tier string) string {
-			return "case = one pipeline of 1..N requests (N=8 quick, 32 thorough; request 0 rotates over every grammar entry; the rest random: valid vectors with all option flags, ill-formed variants, surplus arguments, unknown commands, QUIT) with a recording handler scripted to fail chosen calls (and, in every sixth case, to return a nil message without an error for every fourth call), served over a scripted connection under: one request per chunk (reference), whole, 1-byte, two random k-way partitions, every 2-way split of short streams, one request per chunk with the client pausing before a seeded request for longer than any read deadline (virtual time), and one request per chunk with a seeded reply write held half-way while a second connection of the same server gets three replies. Oracle: at every would-block read complete frames == requests fully delivered; one frame per request; reply i is what the double returned for request i; handler error => error frame and next request normal; QUIT => +OK, close, nothing behind it executed; outputs byte-identical across chunkings; spin = >=3 s CPU without a transport/handler event (child watchdog). distinct = (pipeline, served read-size sequence); non-trivial = pipeline length >= 2 or non-whole chunking"
+			return "case = one pipeline of 1..N requests (N=8 quick, 32 thorough; request 0 rotates over every grammar entry; the rest random: valid vectors with all option flags, ill-formed variants, surplus arguments, unknown commands, QUIT) with a recording handler scripted to fail chosen calls (and, in every sixth case, to return a nil message without an error for every fourth call), served over a scripted connection under: one request per chunk (reference), whole, 1-byte, two random k-way partitions, every 2-way split of short streams, whole and random delivery with the last bytes and the end of stream reported by one read (n>0 with io.EOF), random delivery with a (0, nil) read between every two chunks, one request per chunk with the client pausing before a seeded request for longer than any read deadline (virtual time), and one request per chunk with a seeded reply write held half-way while a second connection of the same server gets three replies. Oracle: at every would-block read complete frames == requests fully delivered; one frame per request; reply i is what the double returned for request i; handler error => error frame and next request normal; QUIT => +OK, close, nothing behind it executed; outputs byte-identical across chunkings; spin = >=3 s CPU without a transport/handler event (child watchdog). distinct = (pipeline, served read-size sequence); non-trivial = pipeline length >= 2 or non-whole chunking"
 		},
 		Assumptions: []string{"spin detection threshold: 3 s of process CPU time without any transport/handler event", "wall-clock watchdog firing is reported inconclusive"},
 		Setup: func(tier string, seed uint64) int {
